@@ -46,6 +46,11 @@ def cases(rng, tier):
         for k in range(n):
             out.append({'op': op, 'seed': rng.getrandbits(30), 'L': rng.choice([1, 2, 2, 3, 3, 4]), 'd': rng.choice([1, 2, 2, 3]),
                         'sectors': rng.random() < 0.6, 'prefix': rng.choice([0, 0, 1, 2]), 'mode': rng.choice(['left', 'right'])})
+    # histories: sequences of operations on a shared pool of objects, snapshots of EVERY pool object around every step
+    nh = {'quick': 40, 'thorough': 400, 'search': 40}[tier]
+    for k in range(nh):
+        out.append({'op': 'history', 'seed': rng.getrandbits(30), 'L': rng.choice([2, 2, 3, 3, 4]), 'd': 2,
+                    'sectors': rng.random() < 0.5, 'steps': rng.randint(2, 6 if tier != 'thorough' else 12), 'mode': rng.choice(['left', 'right'])})
     return out
 
 
@@ -215,7 +220,106 @@ def followups(res, rs):
                     x[...] = x * 2 + 1
 
 
+
+HIST_OPS = ['mps_add', 'mps_sub', 'mpo_add', 'mpo_matmul', 'apply_operator', 'vdot', 'operator_average', 'operator_inner_product',
+            'as_vector', 'as_matrix', 'mps_orthonormalize', 'mps_compress', 'mpo_orthonormalize', 'tdvp_singlesite', 'tdvp_twosite',
+            'dmrg_singlesite', 'dmrg_twosite']
+
+
+def impl_history(case):
+    """a history of operations on a shared pool; after every step every pool object except the documented target must be byte-identical,
+    returned MPS/MPO must not share memory with any pool object, and mutating them in place must not alter the pool"""
+    import warnings
+    warnings.simplefilter('ignore')
+    import pytenet as ptn
+    import gen as G
+    rs = np.random.default_rng(case['seed'])
+    L, d, sec = case['L'], case['d'], case['sectors']
+    if sec:
+        H = ptn.heisenberg_xxz_mpo(L, 1.0, 0.7, 0.2)
+    else:
+        H = G.hermitian_mpo(rs, L, d, 'zero', Dmax=2)
+    qd = np.array(H.qd)
+    def new_state():
+        return G.rand_mps(rs, L, d, qclass='unsorted' if sec else 'zero', Dmax=3, qd=qd)
+    pool = {'psi': new_state(), 'chi': new_state(), 'H': H, 'O': G.rand_mpo(rs, L, d, qclass='unsorted' if sec else 'zero', Dmax=2, qd=qd)}
+    names = ['psi', 'chi', 'H', 'O']
+    steps = []
+    for k in range(case['steps']):
+        op = str(rs.choice(HIST_OPS))
+        a, b = (('psi', 'chi') if rs.random() < 0.5 else ('chi', 'psi'))
+        if op in ('mps_add', 'mps_sub'):
+            if not (np.array_equal(pool[a].qD[0], pool[b].qD[0]) and np.array_equal(pool[a].qD[-1], pool[b].qD[-1])) or max(pool[a].bond_dims) > 12:
+                continue
+            operands = [a, b]; call = (lambda: pool[a] + pool[b]) if op == 'mps_add' else (lambda: pool[a] - pool[b])
+        elif op == 'mpo_add':
+            if max(pool['O'].bond_dims) > 8:
+                continue
+            operands = ['H', 'O']; call = lambda: pool['H'] + pool['O']
+        elif op == 'mpo_matmul':
+            if max(pool['O'].bond_dims) > 6:
+                continue
+            operands = ['O', 'H']; call = lambda: pool['O'] @ pool['H']
+        elif op == 'apply_operator':
+            if max(pool[a].bond_dims) > 8 or max(pool['O'].bond_dims) > 8:
+                continue
+            operands = ['O', a]; call = lambda: ptn.apply_operator(pool['O'], pool[a])
+        elif op == 'vdot':
+            operands = [a, b]; call = lambda: ptn.vdot(pool[a], pool[b])
+        elif op == 'operator_average':
+            operands = [a, 'H']; call = lambda: ptn.operator_average(pool[a], pool['H'])
+        elif op == 'operator_inner_product':
+            operands = [a, 'O', b]; call = lambda: ptn.operator_inner_product(pool[a], pool['O'], pool[b])
+        elif op == 'as_vector':
+            operands = [a]; call = lambda: pool[a].as_vector()
+        elif op == 'as_matrix':
+            operands = ['O']; call = lambda: pool['O'].as_matrix()
+        elif op == 'mps_orthonormalize':
+            operands = [a]; call = lambda: pool[a].orthonormalize(mode=case['mode'])
+        elif op == 'mps_compress':
+            operands = [a]; call = lambda: pool[a].compress(float(rs.choice([0, 0.05])), mode=case['mode'])
+        elif op == 'mpo_orthonormalize':
+            operands = ['O']; call = lambda: pool['O'].orthonormalize(mode=case['mode'])
+        else:
+            if ptn.norm(pool[a]) < 1e-10 or max(pool[a].bond_dims) > 6:
+                continue
+            operands = ['H', a]
+            if op == 'tdvp_singlesite':
+                call = lambda: ptn.integrate_local_singlesite(pool['H'], pool[a], 0.05j, 1, numiter_lanczos=4)
+            elif op == 'tdvp_twosite':
+                call = lambda: ptn.integrate_local_twosite(pool['H'], pool[a], 0.05j, 1, numiter_lanczos=4, tol_split=1e-8)
+            elif op == 'dmrg_singlesite':
+                call = lambda: ptn.calculate_ground_state_local_singlesite(pool['H'], pool[a], 1, numiter_lanczos=4)
+            else:
+                call = lambda: ptn.calculate_ground_state_local_twosite(pool['H'], pool[a], 1, numiter_lanczos=4, tol_split=1e-8)
+        bystanders = [n for n in names if n not in operands]
+        order = operands + bystanders
+        before = [digest(pool[n]) for n in order]
+        try:
+            res = call()
+        except Exception as e:
+            steps.append({'op': op, 'error': type(e).__name__, 'changed': [digest(pool[n]) != b0 for n, b0 in zip(order, before)],
+                          'shares': False, 'followup_changed': False})
+            continue
+        changed = [digest(pool[n]) != b0 for n, b0 in zip(order, before)]
+        sh, fu = False, False
+        if isinstance(res, (ptn.MPS, ptn.MPO)):
+            sh = shares(res, [pool[n] for n in names])
+            if rs.random() < 0.5:
+                # keep the result in the pool (later steps then act on it next to its former operands)
+                slot = a if isinstance(res, ptn.MPS) else 'O'
+                pool[slot] = res
+            else:
+                fb = [digest(pool[n]) for n in names]
+                followups(res, rs)
+                fu = [digest(pool[n]) for n in names] != fb
+        steps.append({'op': op, 'changed': changed, 'shares': bool(sh), 'followup_changed': bool(fu), 'n_operands': len(operands)})
+    return {'steps': steps}
+
+
 def impl(case):
+    if case['op'] == 'history':
+        return impl_history(case)
     import warnings
     warnings.simplefilter('ignore')
     import pytenet as ptn
@@ -412,6 +516,18 @@ def _kind(op):
 def prop(case, r):
     if 'skip' in r:
         return []
+    if case['op'] == 'history':
+        msgs = []
+        for k, st in enumerate(r['steps']):
+            t = _kind(st['op'])
+            for i, c in enumerate(st['changed']):
+                if c and i != t:
+                    msgs.append('history step %d (%s): modified %s' % (k, st['op'], 'operand %d' % i if i < st.get('n_operands', 99) else 'an object that is not even an operand'))
+            if st['shares']:
+                msgs.append('history step %d (%s): result shares memory with a pool object' % (k, st['op']))
+            if st['followup_changed']:
+                msgs.append('history step %d (%s): in-place mutation of the result altered a pool object' % (k, st['op']))
+        return msgs
     msgs = []
     t = _kind(case['op'])
     for i, c in enumerate(r['changed']):
@@ -425,6 +541,10 @@ def prop(case, r):
 
 
 def coq(case, r):
+    if case['op'] == 'history':
+        terms = ['obs_ok (desc_of Op_%s) %s %s %s' % (st['op'], E.lst([E.boolean(b) for b in st['changed']]),
+                                                       E.boolean(st['shares']), E.boolean(st['followup_changed'])) for st in r['steps']]
+        return ' && '.join(['true'] + terms)
     if 'skip' in r or 'changed' not in r:
         return None
     return 'obs_ok (desc_of Op_%s) %s %s %s' % (case['op'], E.lst([E.boolean(b) for b in r['changed']]),
@@ -432,10 +552,14 @@ def coq(case, r):
 
 
 def klass(case, r):
+    if case['op'] == 'history':
+        return 'history/%d-steps' % len(r.get('steps', []))
     if 'skip' in r:
         return case['op'] + '/skip'
     return '%s/%s/%s' % (case['op'], r.get('result_kind', '?'), 'target-written' if any(r.get('changed', [])) else 'no-writes')
 
 
 def nontrivial(case, r):
+    if case['op'] == 'history':
+        return len(r.get('steps', [])) >= 2
     return 'error' not in r and 'skip' not in r
